@@ -955,6 +955,128 @@ def run_mcases(ctx):
 
 
 # ---------------------------------------------------------------------------------------------
+# the pipeline itself: FourierFilter with internal sizes in {1, 2, 4}, where the DFT kernels are powers of i and the
+# Lean pipeline (`filterP`, `filterPBackward`: the very definitions of the `filterP_*` theorems and, through
+# `filter_dft2_eq_filterP`, of every theorem about `filter (dftPair2 ..) (cutoutEmb ..)`) runs exactly on Gaussian rationals
+
+AXES4 = [(1, 1.0), (1, 2.0), (1, 4.0), (2, 1.0), (2, 2.0), (3, 4 / 3), (3, 1.5), (3, 1.25), (4, 1.0), (2, 1.75), (1, 1.5)]
+
+
+def gen_fcase(rng):
+    (nx, qx), (ny, qy) = AXES4[int(rng.integers(0, len(AXES4)))], AXES4[int(rng.integers(0, len(AXES4)))]
+    q = qx if (qx == qy and rng.random() < 0.7) else [qx, qy]
+    return {'dims': [nx, ny], 'delta': [0.25, [0.25, 0.5][int(rng.integers(0, 2))]], 'q': q,
+            'field': ['scalar', 'scalar', 'vector'][int(rng.integers(0, 3))], 'tfkind': ['generator', 'field'][int(rng.integers(0, 2))],
+            'fseed': int(rng.integers(0, 2 ** 31))}
+
+
+def directed_fcases():
+    out = []
+    for (nx, qx), (ny, qy) in (((2, 2.0), (3, 4 / 3)), ((4, 1.0), (4, 1.0)), ((1, 4.0), (1, 4.0)), ((3, 1.5), (2, 2.0)), ((2, 1.0), (1, 2.0)),
+                               ((1, 1.0), (1, 1.0)), ((4, 1.0), (1, 4.0)), ((3, 1.25), (3, 1.25)), ((2, 2.0), (2, 2.0))):
+        for t in ('generator', 'field'):
+            out.append({'dims': [nx, ny], 'delta': [0.25, 0.25], 'q': qx if qx == qy else [qx, qy], 'field': 'scalar', 'tfkind': t, 'fseed': 5})
+    return out
+
+
+def build_ffilter(fc):
+    import hcipy
+    grid = hcipy.CartesianGrid(hcipy.RegularCoords(np.array(fc['delta'], dtype=float), np.array(fc['dims']),
+                                                   np.array([-d * (k - 1) / 2 for d, k in zip(fc['delta'], fc['dims'])])))
+    holder = {}
+
+    def tfgen(internal_grid):
+        holder['D'] = _dyadic_complex(np.random.default_rng([fc['fseed'], 7]), (internal_grid.size,))
+        return hcipy.Field(holder['D'].copy(), internal_grid)
+    q = _mq(fc)
+    if fc['tfkind'] == 'generator':
+        ff = hcipy.FourierFilter(grid, tfgen, q)
+    else:
+        probe = hcipy.FourierFilter(grid, tfgen, q)
+        ff = hcipy.FourierFilter(grid, tfgen(probe.internal_grid), q)
+    return grid, ff, holder
+
+
+def oracle_fcase(fc, observe=None):
+    """<y, forward x> = <backward y, x> on the real FourierFilter with a scalar transfer function."""
+    import hcipy
+    grid, ff, holder = build_ffilter(fc)
+    ts = () if fc['field'] == 'scalar' else (2,)
+    x = hcipy.Field(_dyadic_complex(np.random.default_rng([fc['fseed'], 0]), ts + (grid.size,)), grid)
+    y = hcipy.Field(_dyadic_complex(np.random.default_rng([fc['fseed'], 1]), ts + (grid.size,)), grid)
+    tag = 'small-filter/%s' % fc['field']
+    try:
+        fx, by = np.asarray(ff.forward(x.copy())), np.asarray(ff.backward(y.copy()))
+    except Exception as e:
+        return [('raises %s %s' % (type(e).__name__, tag), 'FourierFilter raised %s: %s' % (type(e).__name__, e))]
+    bad = []
+    lhs, rhs = inner(np.asarray(y), fx, 1.0), inner(by, np.asarray(x), 1.0)
+    if not abs(lhs - rhs) <= TOL * max(1.0, abs(lhs), abs(rhs)):
+        bad.append(('adjoint ' + tag, '<y, forward x> = %r but <backward y, x> = %r' % (lhs, rhs)))
+    if observe is not None:
+        observe.update({'grid': grid, 'ff': ff, 'D': holder['D'], 'x': np.asarray(x), 'y': np.asarray(y), 'fx': fx, 'by': by})
+    return bad
+
+
+def _glist(a):
+    return '[%s]' % ','.join(rat(float(t)) for t in a)
+
+
+def fcase_requests(fc, obs):
+    D = obs['D']
+    lines = ['C04 setup fresnel %d %d %s %s 1/16 1/2 1 %s 1' % (fc['dims'][0], fc['dims'][1], rat(fc['delta'][0]), rat(fc['delta'][1]), _vtext(fc['q']))]
+    obs['expect'] = []
+    for back, e_in, e_out in ((0, obs['x'], obs['fx']), (1, obs['y'], obs['by'])):
+        for comp_in, comp_out in zip(np.atleast_2d(e_in), np.atleast_2d(e_out)):
+            lines.append('C04 filt %d %s %s %s %s' % (back, _glist(D.real), _glist(D.imag), _glist(comp_in.real), _glist(comp_in.imag)))
+            obs['expect'].append((back, comp_out))
+    return lines
+
+
+def compare_fcase(ctx, fc, obs, answers):
+    ff = obs['ff']
+    kv = _kv(answers[0])
+    M = [int(v) for v in parse_rat_list(kv['M'])]
+    ctx.traces_validated += 1
+    if [int(d) for d in ff.internal_grid.dims] != M:
+        ctx.disagree('C04 padded size', {'fcase': fc, 'impl': [int(d) for d in ff.internal_grid.dims], 'model': M})
+        return
+    for resp, (back, real) in zip(answers[1:], obs['expect']):
+        if not resp.startswith('ok'):
+            raise MachineryError('C04 filt: driver answered %r for %r' % (resp, fc))
+        k = _kv(resp)
+        got = np.array([float(a) + 1j * float(b) for a, b in zip(parse_rat_list(k['re']), parse_rat_list(k['im']))])
+        ctx.traces_validated += 1
+        ctx.count('pipeline-executed(filt):' + ('backward' if back else 'forward'))
+        if got.shape != real.shape or not np.abs(got - real).max() <= 1e-12 * max(1.0, float(np.abs(real).max())):
+            ctx.disagree('C04 executed pipeline', {'fcase': fc, 'direction': 'backward' if back else 'forward',
+                                                   'impl': [str(c) for c in real], 'model': [str(c) for c in got]})
+
+
+def run_fcases(ctx):
+    n = ctx.scale(240, 3000)
+    fcases = directed_fcases() + [gen_fcase(ctx.rng) for _ in range(n)]
+    lines, kept = [], []
+    for fc in fcases:
+        obs = {}
+        for key, what in oracle_fcase(fc, observe=obs):
+            ctx.violation(key, what, {'fcase': fc})
+        m = exact_regime({'kind': 'fresnel', 'dims': fc['dims'], 'delta': fc['delta'], 'lam': 1 / 16, 'z': 0.5, 'n': 1, 'q': fc['q'], 's': 1})['M']
+        ctx.count('small-filter M=%dx%d' % (m[0], m[1]))
+        ctx.count('small-filter padding:' + ('none' if m == fc['dims'] else ('one axis' if (m[0] == fc['dims'][0] or m[1] == fc['dims'][1]) else 'both axes')))
+        ctx.count('small-filter:%s %s' % (fc['field'], fc['tfkind']))
+        ctx.case(None, nontrivial_key=('fcase', tuple(fc['dims']), _vkey(fc['q']), fc['field'], fc['tfkind']))
+        if 'ff' not in obs:
+            continue
+        req = fcase_requests(fc, obs)
+        kept.append((fc, obs, len(lines), len(req)))
+        lines += req
+    answers = ctx.model(lines)
+    for fc, obs, a, k in kept:
+        compare_fcase(ctx, fc, obs, answers[a:a + k])
+
+
+# ---------------------------------------------------------------------------------------------
 
 def run(ctx):
     ctx.rule = ('Fresh FresnelPropagator / AngularSpectrumPropagator per case on regular grids 2..16 per axis (thorough ..24; odd, even, '
@@ -1039,6 +1161,7 @@ def run(ctx):
         for cur, obs, pix, a, k, nh in s_kept:
             compare_model(ctx, cur, obs, pix, s_answers[a + nh - 1:a + k])
         run_mcases(ctx)
+        run_fcases(ctx)
     if ctx.boundary_skipped > 0.10 * max(1, ctx.evaluations):
         raise MachineryError('too many boundary-skipped cases (%d of %d)' % (ctx.boundary_skipped, ctx.evaluations))
 
@@ -1046,7 +1169,7 @@ def run(ctx):
 def replay(ctx, case):
     with warnings.catch_warnings():
         warnings.simplefilter('ignore')
-        bad = oracle_session(case['session']) if 'session' in case else (oracle_mcase(case['mcase']) if 'mcase' in case else oracle_case(case))
+        bad = oracle_session(case['session']) if 'session' in case else (oracle_mcase(case['mcase']) if 'mcase' in case else (oracle_fcase(case['fcase']) if 'fcase' in case else oracle_case(case)))
     for key, what in bad:
         print('  fails:', key, '-', what)
     return not bad
